@@ -3517,7 +3517,28 @@ def canonical(fn, helpers, sigs=None, cls=None):
     return digest, f
 
 
-def inlined_only(fn, helpers, ref_fn=None):
+_SIGS_MEMO = [None, None]
+
+
+def _sigs_once(trees):
+    if _SIGS_MEMO[0] is not trees:
+        _SIGS_MEMO[0], _SIGS_MEMO[1] = trees, signatures_of(trees)
+    return _SIGS_MEMO[1]
+
+
+def inlined_only(fn, helpers, ref_fn=None, sigs=None):
+    # the effect tables that depend on the analysed tree (pure package functions, shallow methods) are those of THIS tree,
+    # not whatever an earlier canonicalisation in the same process left behind
+    saved = SIGNATURES[0]
+    SIGNATURES[0] = sigs or {}
+    _NONLOCAL[0] = any(isinstance(n, (ast.Nonlocal, ast.Global)) for n in ast.walk(fn))
+    try:
+        return _inlined_only(fn, helpers, ref_fn)
+    finally:
+        SIGNATURES[0] = saved
+
+
+def _inlined_only(fn, helpers, ref_fn=None):
     """fn with the calls of `helpers` (functions the reference does not have) and of its own only-called closures replaced
     by their bodies; nothing else is rewritten.  Used for functions that are NOT refactorings of the reference: the rules
     then see the code the call executes instead of a call they know nothing about.  None if nothing was inlined."""
@@ -3794,7 +3815,8 @@ def restore_equivalent(trees, tree_digest=None):
             # not a refactoring of the reference: analysed as written, except that calls of newly extracted helpers /
             # closures are replaced by their bodies (behaviour preserving) so that the rules see what the call does
             try:
-                new = inlined_only(node, {k: v for k, v in hc.items() if (k if isinstance(k, str) else k[1]) not in _names_of_reference(ref, m)}, r)
+                new = inlined_only(node, {k: v for k, v in hc.items() if (k if isinstance(k, str) else k[1]) not in _names_of_reference(ref, m)}, r,
+                                   sigs=_sigs_once(trees))
             except RecursionError:
                 new = None
             if new is not None:
